@@ -146,4 +146,18 @@ CHECKS = {
         assumptions=COMMON_ASSUME + SIM_ASSUME + ["a failed CommitState is clean (not committed): the MetaStore contract is atomic; ambiguous commit results are not generated", "availability is not asserted: after a fault the WAL may refuse writes until reopened"],
         jobs=[dict(pkg="fault", run="TestC10Faults", checks_quick=800, checks_thorough=20000, shards_quick=16, shards_thorough=16, timeout_quick=600, timeout_thorough=3000)],
     ),
+    "C11": dict(
+        level="exploration",
+        technique="structured mutation fuzzing (rapid, seed-deterministic) of valid directories built by real workloads: segment files, index blocks, frame/length fields, the metadata record and codec payloads; oracles inside the target: recovered panic, SimFS read budget (unbounded loop), allocation bound, must-error rules, flock/descriptor probes after a failed Open; native go test -fuzz of the same targets in the thorough tier",
+        rule="a valid multi-segment directory is built by a generated workload (segment sizes 128..4096, head/tail truncations) and then damaged by 1-3 generated mutations: bit flip, byte set, zero run, truncation (incl. below the 32-byte header), splice from another file, frame duplication, frame-type edit, length-field edit with hostile constants (2^26+-1, 2^31, 2^32-1), index-block edit, header swap, garbage, removal; metadata record: duplicate BaseIndex, unsealed-not-last, sealed tail, zero BaseIndex, IndexStart/SizeLimit/Max edits, swapped/dropped segments, NextSegmentID, codec, textual flips/truncation/garbage. Targets: wal.Open + read sweep + StoreLogs + DumpLogs; Filer.RecoverTail/Open/DumpSegment per segment; BinaryCodec.Decode vs a strict reference decoder; production fs+bbolt stack for lock/descriptor leaks after a failed Open. Non-trivial = the mutation changed bytes the code reads (effective mutation); distinct = FNV-64 of the case",
+        expect_classes=["open-error", "open-ok", "recover-ok", "recover-error", "sealed-open-error", "structurally-invalid", "real-open-failed:remove", "real-open-failed:trunc", "real-open-failed:hdr"] + ["mut:" + k for k in ["flip", "frameflip", "lenedit", "typeedit", "zero", "trunc", "splice", "dupframe", "indexedit", "hdrswap", "garbage", "remove", "meta-dupbase", "meta-unsealmid", "meta-sealtail", "meta-zerobase", "meta-indexstart", "meta-minmax", "meta-drop", "meta-textflip", "meta-texttrunc"]],
+        assumptions=COMMON_ASSUME + SIM_ASSUME + ["allocation bound per call = 4 x directory bytes + 2 x MaxEntrySize + 4MiB, measured with runtime.MemStats.TotalAlloc on a single goroutine", "a loop is judged unbounded when one file handle serves more than 64 + size/2 ReadAt calls", "payload corruption inside a sealed segment is not detectable by the WAL (no per-read CRC, README) and is not asserted"],
+        jobs=[
+            dict(pkg="dmg", run="TestC11OpenDir", checks_quick=250, checks_thorough=6000, shards_quick=8, shards_thorough=16, timeout_quick=600, timeout_thorough=3000),
+            dict(pkg="dmg", run="TestC11Meta", checks_quick=250, checks_thorough=5000, shards_quick=4, shards_thorough=16, timeout_quick=600, timeout_thorough=3000),
+            dict(pkg="dmg", run="TestC11Segments", checks_quick=250, checks_thorough=6000, shards_quick=6, shards_thorough=16, timeout_quick=600, timeout_thorough=3000),
+            dict(pkg="dmg", run="TestC11Decode", checks_quick=2000, checks_thorough=50000, shards_quick=2, shards_thorough=8, timeout_quick=600, timeout_thorough=3000),
+            dict(pkg="dmg", run="TestC11Lock", checks_quick=25, checks_thorough=300, shards_quick=4, shards_thorough=8, timeout_quick=600, timeout_thorough=3000),
+        ],
+    ),
 }
